@@ -119,9 +119,12 @@ impl File {
     pub(crate) fn synced_size(&self) -> u64 {
         self.inner.synced_size.load(Ordering::SeqCst)
     }
-    /// Bytes that a sync started now would newly cover. The range of an append that is still in flight does not count:
-    /// no sync can cover it yet, and the append looks at this value itself when it is done.
     pub(crate) fn dirty_bytes(&self) -> u64 {
+        self.size().saturating_sub(self.synced_size())
+    }
+    /// The part of `dirty_bytes` that a sync started now would cover: the range of an append that is still in flight
+    /// (its caller may have been dropped) is dirty, but no sync can cover it before its bytes have landed.
+    pub(crate) fn syncable_dirty_bytes(&self) -> u64 {
         self.inner.written_size.load(Ordering::SeqCst).saturating_sub(self.synced_size())
     }
 
